@@ -15,6 +15,8 @@ from __future__ import annotations
 
 import ast
 
+from .helpers import Every  # noqa: E402
+
 from .. import terms as T
 from ..model import AnalysisError, self_attr, stmt_text, walk_no_nested
 from ..paths import unversion
@@ -267,19 +269,22 @@ def _engine_cards(chk, ctx) -> None:
     is_int = T.spec('isinstance(cards, int)', boolean=True)
     deal = T.spec('tuple(self.get_dealable_cards(cards))')
     ok_short = ok_prefix = False
+    ok_short = Every()
+    ok_prefix = Every()
     for p in ctx.paths(fi):
         conds = [unversion(c) for c in p.conds()]
         if is_int not in conds:
             continue
         if p.raised:
-            ok_short = p.outcome[1] == 'ValueError' and T.spec('len(D) < cards', {'D': deal}, boolean=True) in conds
+            ok_short.see(p.outcome[1] == 'ValueError' and T.spec('len(D) < cards', {'D': deal}, boolean=True) in conds)
         elif p.returned:
-            ok_prefix = unversion(p.outcome[1]) == ('sub', deal, ('slice', ('const', None), ('name', 'cards'), ('const', None)))
+            ok_prefix.see(unversion(p.outcome[1]) == ('sub', deal, ('slice', ('const', None), ('name', 'cards'), ('const', None))))
     chk.ob('C06.engine_cards', 'State._verify_cards_consumption', ok_short and ok_prefix, fi.loc,
            'cards chosen by the engine are the first n dealable cards; a request that cannot be covered is refused',
            got=f'refuses when short: {ok_short}; returns prefix of the dealable cards: {ok_prefix}')
     fi = ctx.sfi('get_dealable_cards')
     ok_deck = ok_res = False
+    ok_deck = Every()
     only_when = T.spec('deal_count is None or deal_count > len(self.deck_cards)', boolean=True)
     for p in ctx.paths(fi):
         ys = [unversion(e.term) for e in p.events if e.kind == 'yield']
@@ -293,7 +298,7 @@ def _engine_cards(chk, ctx) -> None:
                 y == T.add(deck, T.spec('tuple(shuffled(self.reserved_cards))')) or \
                 T.show(y).count('reserved_cards') == 1 and T.show(y).startswith('concat')
         elif T.mk_not(only_when) in conds:
-            ok_deck = y == deck
+            ok_deck.see(y == deck)
     chk.ob('C06.engine_cards', 'State.get_dealable_cards', ok_deck and ok_res, fi.loc,
            'the deck comes first; reserve cards (burns, muck, discards) are offered only when the deck cannot cover the deal',
            got=f'deck only when it suffices: {ok_deck}; deck + reserve otherwise: {ok_res}')
